@@ -10,6 +10,9 @@ import FranzVerif.Model.C25IO
                              pub: the public CooperativeStickyBalancer path. model: echo pre # `adjust pre` # echo pub;
                              Spec: `validPlan pre`, `validCoop post`, `validCoop pub`
   krange / kuniform KM S | plan   model: `kCompute`; Spec: `validPlan` over the active members
+  sticky@R / coop@R M T | out @@ out @@ …   the input balanced R times by the harness (the engine numbers topics
+                             in Go map iteration order: one input has several executions); the distinct outputs,
+                             each judged as for `sticky` / `coop`; the verdict holds when the Spec holds on all
 
   M  = `;`-separated members  id/inst/rack/gen/subs/owned   (`-` = none/empty, rack `_` = pointer to "")
        subs = t+t+…, owned = t:p.p+t:p.p
@@ -24,8 +27,13 @@ def step (_ : Unit) (line : String) : Unit × String :=
   let (op, impl) := splitBar line
   let out :=
     match toks op with
-    | [kind, m, t] =>
-      if kind == "krange" || kind == "kuniform" then
+    | [kind0, m, t] =>
+      -- `sticky@R` / `coop@R`: the distinct outputs of R repetitions
+      let (kind, outs) := match kind0.splitOn "@" with
+        | [k, _] => (k, impl.splitOn " @@ ")
+        | _ => (kind0, [impl])
+      if kind0 != kind && kind != "sticky" && kind != "coop" then "bad-op | - | 0"
+      else if kind == "krange" || kind == "kuniform" then
         let ms0 := parseKMembers m
         let snap := (parseTopics t).1
         let assignor := if kind == "krange" then "range" else "uniform"
@@ -63,25 +71,32 @@ def step (_ : Unit) (line : String) : Unit × String :=
           let ok := validPlan (subsOf ms) n ip && showPlan ids ip == impl
           s!"{mout} | {verdict ok "rr"} | {nt}"
         else if kind == "sticky" then
-          let ip := parsePlan impl
-          let ok := validPlan (subsOf ms) n ip && showPlan ids ip == impl
+          let ok := outs.all fun one =>
+            let ip := parsePlan one
+            validPlan (subsOf ms) n ip && showPlan ids ip == one
           s!"* | {verdict ok (if dupSub then "sticky-duplicate-subscription" else "sticky")} | {nt}"
         else if kind == "coop" then
-          match impl.splitOn " # " with
-          | [pre, post, pub] =>
-            let p := parsePlan pre
-            let a := parsePlan post
-            let b := parsePlan pub
-            let wf := showPlan ids p == pre && showPlan ids a == post && showPlan ids b == pub
-            let okPre := validPlan (subsOf ms) n p
-            let okPost := validCoop ms n a
-            let okPub := validCoop ms n b
-            let key := if !wf then "coop-sticky-malformed"
-                       else if dupSub then "sticky-duplicate-subscription"
-                       else if !okPre then "coop-sticky-plan"
-                       else if !okPost then "coop-sticky-adjusted" else "coop-sticky-public"
-            s!"{pre} # {showPlan ids (adjust ms p)} # {pub} | {verdict (wf && okPre && okPost && okPub) key} | {nt}"
-          | _ => s!"bad-impl | 0:coop-sticky-malformed | {nt}"
+          -- per output: (model text, key of the first failed part or none)
+          let parts : List (String × Option String) := outs.map fun one =>
+            match one.splitOn " # " with
+            | [pre, post, pub] =>
+              let p := parsePlan pre
+              let a := parsePlan post
+              let b := parsePlan pub
+              let wf := showPlan ids p == pre && showPlan ids a == post && showPlan ids b == pub
+              let okPre := validPlan (subsOf ms) n p
+              let okPost := validCoop ms n a
+              let okPub := validCoop ms n b
+              let key := if !wf then "coop-sticky-malformed"
+                         else if dupSub then "sticky-duplicate-subscription"
+                         else if !okPre then "coop-sticky-plan"
+                         else if !okPost then "coop-sticky-adjusted" else "coop-sticky-public"
+              (s!"{pre} # {showPlan ids (adjust ms p)} # {pub}", if wf && okPre && okPost && okPub then none else some key)
+            | _ => ("bad-impl", some "coop-sticky-malformed")
+          let mout := " @@ ".intercalate (parts.map (·.1))
+          match parts.findSome? (·.2) with
+          | none => s!"{mout} | 1 | {nt}"
+          | some key => s!"{mout} | 0:{key} | {nt}"
         else "bad-op | - | 0"
     | _ => "bad-op | - | 0"
   ((), out)
